@@ -140,4 +140,86 @@ impl Filter {
 //@|        r is Ok ==> !json_level_bad(&json_of(json_str@), "logLevelMin"@) && !json_level_bad(&json_of(json_str@), "logLevelMax"@), // O:from_json.levels (a log level above 6 is rejected)
 //@ end
 }
+
+// ---- front-end: the ECU:APID:CTID expression of `adlt convert` (EacFilter::from_str, src/bin/adlt/convert.rs) ----
+// `s.split(':')` and three times `.next().unwrap_or_default()` (R11): the first three ':'-separated parts of the text, "" if absent
+pub uninterp spec fn colon_part(s: Seq<char>, k: int) -> Seq<char>;
+#[verifier::external_body]
+pub fn vx_colon_parts(s: &str) -> (r: (&str, &str, &str))
+    ensures r.0@ == colon_part(s@, 0), r.1@ == colon_part(s@, 1), r.2@ == colon_part(s@, 2),
+{ unimplemented!() }
+#[verifier::external_body]
+pub fn vx_str_is_empty(s: &str) -> (r: bool) ensures r == (s@.len() == 0) { unimplemented!() }
+pub struct EacFilter { pub filter: Filter }
+// an enabled, not negated filter of the given kind without any criterion other than ids
+pub open spec fn ids_only(f: &Filter, kind: FilterKind) -> bool {
+    f.kind == kind && f.enabled && !f.at_load_time && !f.negate_match && f.verb_mstp_mtin is None && f.payload is None && f.payload_regex is None
+        && !f.ignore_case_payload && f.payload_as_regex is None && f.loglevel_min is None && f.loglevel_max is None && f.lifecycles is None
+}
+// an id criterion of the expression: absent for an empty part, else a regular expression iff the text contains regex characters
+pub open spec fn eac_crit_is(c: Option<Char4OrRegex>, part: Seq<char>) -> bool {
+    if part.len() == 0 { c is None } else { c is Some && c4r_is(c->Some_0, part, has_rx_chars(part)) }
+}
+impl EacFilter {
+//@ extract src/bin/adlt/convert.rs EacFilter::from_str
+//@   sub R11 `let mut parts = s.split(':');` => `let vx_parts = vx_colon_parts(s);`
+//@   sub R11 `let ecu = parts.next().unwrap_or_default();` => `let ecu = vx_parts.0;`
+//@   sub R11 `let apid = parts.next().unwrap_or_default();` => `let apid = vx_parts.1;`
+//@   sub R11 `let ctid = parts.next().unwrap_or_default();` => `let ctid = vx_parts.2;`
+//@   sub R11 `s.is_empty()` => `vx_str_is_empty(s)`
+//@   sub R11 `ecu.is_empty()` => `vx_str_is_empty(ecu)`
+//@   sub R11 `apid.is_empty()` => `vx_str_is_empty(apid)`
+//@   sub R11 `ctid.is_empty()` => `vx_str_is_empty(ctid)`
+//@   sub R11 `Char4OrRegex::from_str(` => `vx_char4orregex_from_str(` *
+//@   sub R2 `adlt::filter::FilterKind::Positive` => `FilterKind::Positive`
+//@   spec
+//@|    ensures
+//@|        r is Ok ==> ({
+//@|            let f = r->Ok_0.filter;
+//@|            eac_crit_is(f.ecu, colon_part(s@, 0)) && eac_crit_is(f.apid, colon_part(s@, 1)) && eac_crit_is(f.ctid, colon_part(s@, 2)) && ids_only(&f, FilterKind::Positive)
+//@|        }), // O:eac.fields (ECU:APID:CTID: a positive filter with exactly the non-empty parts as id criteria)
+//@ end
+}
+
+// ---- front-end equivalence (the property's second sentence, for JSON and the ECU:APID:CTID expression) ----
+// ASSUMED about the regex crate: whether a compiled regex matches is a function of the pattern it was compiled from
+pub uninterp spec fn rx_matches(pat: Seq<char>, b: Seq<u8>) -> bool;
+#[verifier::external_body]
+pub proof fn axiom_bre_match_by_pattern(r: &VxBytesRegex, b: Seq<u8>)
+    ensures bre_match(r, b) == rx_matches(bre_pat(r), b),
+{}
+// two id criteria built from the same text with the same literal/regex decision accept the same ids
+pub proof fn lemma_same_id_crit(c1: Char4OrRegex, c2: Char4OrRegex, s: Seq<char>, rx: bool, id: Seq<u8>)
+    requires c4r_is(c1, s, rx), c4r_is(c2, s, rx),
+    ensures id_ok(Some(c1), id) == id_ok(Some(c2), id),
+{
+    if rx {
+        axiom_bre_match_by_pattern(&c1->Regex_0, id);
+        axiom_bre_match_by_pattern(&c2->Regex_0, id);
+    }
+}
+// A JSON document that says the same as an ECU:APID:CTID expression - a positive filter, the non-empty parts as "ecu"/"apid"/"ctid",
+// no explicit IsRegex flags, nothing else - yields a filter that decides every message like the one built from the expression.
+pub open spec fn json_says_eac(j: &VxJson, e: Seq<char>) -> bool {
+    &&& j.u("type"@) == Some(0u64)
+    &&& j.b("enabled"@) is None && j.b("not"@) is None
+    &&& j.s("ecu"@) == (if colon_part(e, 0).len() == 0 { None::<Seq<char>> } else { Some(colon_part(e, 0)) }) && j.b("ecuIsRegex"@) is None
+    &&& j.s("apid"@) == (if colon_part(e, 1).len() == 0 { None::<Seq<char>> } else { Some(colon_part(e, 1)) }) && j.b("apidIsRegex"@) is None
+    &&& j.s("ctid"@) == (if colon_part(e, 2).len() == 0 { None::<Seq<char>> } else { Some(colon_part(e, 2)) }) && j.b("ctidIsRegex"@) is None
+    &&& j.s("payloadRegex"@) is None && j.s("payload"@) is None && j.u("logLevelMin"@) is None && j.u("logLevelMax"@) is None
+    &&& j.u("verb_mstp_mtin"@) is None && j.u("mstp"@) is None && j.u32s("lifecycles"@) is None
+}
+pub proof fn theorem_json_eac_same_decision(fj: &Filter, j: &VxJson, fe: &Filter, e: Seq<char>, m: &DltMessage)
+    requires
+        filter_is_json(fj, j), json_says_eac(j, e),
+        eac_crit_is(fe.ecu, colon_part(e, 0)) && eac_crit_is(fe.apid, colon_part(e, 1)) && eac_crit_is(fe.ctid, colon_part(e, 2)) && ids_only(fe, FilterKind::Positive),
+    ensures spec_matches(fj, m) == spec_matches(fe, m), // O:frontends.json_eac (the same abstract filter decides identically whether loaded from JSON or from an ECU:APID:CTID expression)
+{
+    let p0 = colon_part(e, 0); let p1 = colon_part(e, 1); let p2 = colon_part(e, 2);
+    if p0.len() > 0 { lemma_same_id_crit(fj.ecu->Some_0, fe.ecu->Some_0, p0, has_rx_chars(p0), m.ecu.char4@); }
+    if m.extended_header is Some {
+        if p1.len() > 0 { lemma_same_id_crit(fj.apid->Some_0, fe.apid->Some_0, p1, has_rx_chars(p1), m.extended_header->Some_0.apid.char4@); }
+        if p2.len() > 0 { lemma_same_id_crit(fj.ctid->Some_0, fe.ctid->Some_0, p2, has_rx_chars(p2), m.extended_header->Some_0.ctid.char4@); }
+    }
+}
 // ---- end of units/filterjson/part.rs ----
